@@ -26,7 +26,7 @@ SPEC = docsweep.Spec(
           "cell of a non-nested table, no tbl for paragraphs outside every table, is_tbl consistent, get_headings = "
           "paragraphs with a Heading style; non-trivial = has a table and a free paragraph; distinct = package bytes"),
     opts=[(False, True), (True, True)],
-    knobs={"tables": 0.5, "headings": 0.35, "nested_pars": 0.0},
+    knobs={"tables": 0.5, "headings": 0.35, "nested_pars": 0.1},
     edge=["nested_tables", "sdt_in_table", "nested_par_in_table"],
     project=project,
     oracle=oracle,
